@@ -121,7 +121,9 @@ def flat_index(nind, cols, ntri):
     return out
 
 
-SCALE_EXPS = [0, 0, 0, 0, -20, -16, -13, -12, -10, -7, -4, -1, 2, 5, 9, 12, 16, 20]
+# powers of two over the whole range in which float32 edge vectors and their squares are representable
+SCALE_EXPS = [0, 0, 0, 0, -56, -50, -44, -38, -33, -28, -20, -16, -13, -10, -7, -4, -1, 2, 5, 9, 12, 16, 20,
+              26, 31, 36, 42, 48, 56]
 
 
 def rand_matrix(rng, tstep=1, tden=1):
